@@ -691,6 +691,21 @@ impl Property for C07 {
         }
         o.class(format!("live-subs-{}", s.live_subs_max.min(6)));
         o.fail = failure_for(&out, &["C07/"]);
+        if o.fail.is_none() {
+            // QoS 2 messages whose exchange spans a reconnection of a continuing session are
+            // yielded exactly once too (the stream outlives the connection)
+            let h = case_hash(case);
+            if let Some(f) = c09_across_reconnection((h % 3) as u8, (h / 3 % 3) as u8, 1 + (h / 9 % 3) as usize, (h / 27 % 5) as u8) {
+                if f.sig.starts_with("C09/stream/qos2-redelivery-yielded-twice") {
+                    o.fail = Some(Failure { sig: "C07/stream/extra-message/across-reconnection".into(), msg: f.msg });
+                } else if f.sig.starts_with("C09/stream/new-message") {
+                    o.fail = Some(Failure { sig: "C07/stream/message-lost/across-reconnection".into(), msg: f.msg });
+                } else if f.sig.starts_with("PANIC/") {
+                    o.fail = Some(f);
+                }
+            }
+            o.class("exchange-spanning-a-reconnection");
+        }
         o
     }
 }
@@ -909,7 +924,7 @@ impl Property for C09 {
         if o.fail.is_none() {
             // an exchange that spans a reconnection of a session that continues
             let h = case_hash(case);
-            o.fail = c09_across_reconnection((h % 3) as u8, (h / 3 % 3) as u8, 1 + (h / 9 % 3) as usize);
+            o.fail = c09_across_reconnection((h % 3) as u8, (h / 3 % 3) as u8, 1 + (h / 9 % 3) as usize, (h / 27 % 5) as u8);
             o.class("exchange-spanning-a-reconnection");
         }
         o
@@ -922,7 +937,7 @@ impl Property for C09 {
 /// `expiry1`: 0 = the first CONNECT asks for one hour, 1 = the first CONNACK assigns it, 2 = both;
 /// `second`: 0 = the second CONNECT repeats the interval, 1 = it carries none, 2 = the hook records
 /// the disconnection (interval repeated, session alive).
-fn c09_across_reconnection(expiry1: u8, second: u8, open: usize) -> Option<Failure> {
+pub fn c09_across_reconnection(expiry1: u8, second: u8, open: usize, lost_by: u8) -> Option<Failure> {
     use crate::world::World;
     let plan = WritePlan::default();
     let mut w = World::new();
@@ -949,6 +964,11 @@ fn c09_across_reconnection(expiry1: u8, second: u8, open: usize) -> Option<Failu
     };
     for k in 0..open {
         w.tick();
+        if lost_by > 0 && k + 1 == open {
+            // the connection breaks (write error) lost_by - 1 bytes into the PUBREC of the last
+            // message: the broker never sees that PUBREC and will send the message again
+            w.writer.set_fault(crate::mockio::WriteFault::ErrAt(w.wire_len() + lost_by as usize - 1));
+        }
         w.reader.feed(msg(10 + k as u16, false, &format!("first-{k}")));
         settle(&mut w, &plan, true);
     }
@@ -957,9 +977,11 @@ fn c09_across_reconnection(expiry1: u8, second: u8, open: usize) -> Option<Failu
         return None; // C07 / C08 judge a single connection
     }
     // the connection is lost
-    w.tick();
-    w.reader.set_eof();
-    settle(&mut w, &plan, true);
+    if lost_by == 0 {
+        w.tick();
+        w.reader.set_eof();
+        settle(&mut w, &plan, true);
+    }
     if w.run_result.is_none() {
         return None;
     }
@@ -987,10 +1009,11 @@ fn c09_across_reconnection(expiry1: u8, second: u8, open: usize) -> Option<Failu
     }
     w.drain_stream(stream);
     let how = format!(
-        "first CONNECT {} / first CONNACK {} a Session Expiry Interval; second CONNECT {}; {open} exchange(s) open at the loss",
+        "first CONNECT {} / first CONNACK {} a Session Expiry Interval; second CONNECT {}; {open} exchange(s) open at the loss ({})",
         if expiry1 != 1 { "carries" } else { "lacks" },
         if expiry1 != 0 { "assigns" } else { "lacks" },
         match second { 0 => "repeats it", 1 => "carries none (the server resumes the session all the same)", _ => "repeats it, disconnection recorded through the hook" },
+        if lost_by == 0 { "end-of-stream".to_string() } else { format!("write error {} byte(s) into the last PUBREC", lost_by - 1) },
     );
     if w.streams[stream].ended {
         return None; // C07's claim
